@@ -266,6 +266,14 @@ def gen_c04(rng, tier):
         jtok = "J" + json.dumps(big).encode().hex() + "~" + big.encode().hex()
         ops = ["N:a", "S:a:%s:ok" % ctrl, "ST", "N:b", "V:b:%s:ok" % ctrl, "A:b", "G:b:2.9,3.12", "P:b:4.13:%s:-" % jtok, "G:b:4.13", "TXT"]
         mk(cases, "honest", ops, {"nacc": nacc, "ctrl": name.hex(), "big": big}, opts="pin=%s nacc=%d fsz=%d" % (pin, nacc, rng.choice([1024, 1024, 500, 100, 37])))
+    # many verifications in a row, several driver processes at once: a verification must never fail intermittently
+    # (not retried: an intermittent failure of an honest handshake is a violation, see fix e748ac2)
+    for i in range(16 if tier == "quick" else 64):
+        ops = ["N:h", "S:h:c0:ok"]
+        for k in range(20):
+            ops += ["N:v%d" % k, "V:v%d:c0:ok" % k, "G:v%d:2.9" % k]
+        mk(cases, "honest-repeat", ops, {}, opts="nacc=0")
+        cases[-1]["noretry"] = True
     for i in range(4 if tier == "quick" else 40):
         pin = valid_pin(rng)
         ops = ["N:a", "S:a:c0:wrongcode", "ST", "N:b", "S:b:c0:ok", "ST"]
@@ -297,6 +305,13 @@ def oracle_c04(c, obs):
                 return "the value written over several frames was not read back: " + tok[:80]
             if p[0] == "TXT" and tok != "sf=0":
                 return "paired accessory still advertises itself as discoverable"
+        elif c["kind"] == "honest-repeat":
+            if p[0] == "S" and tok != "S=st2/st4/st6[M2okM6ok]":
+                return "pair-setup of a specification-conformant controller did not complete: " + tok
+            if p[0] == "V" and tok != "V=st2/st4[M2ok]":
+                return "pair-verify of a paired, specification-conformant controller failed (verification %s of 20 in a row): %s" % (p[1], tok)
+            if p[0] == "G" and not tok.startswith("G=200:"):
+                return "the first encrypted request after pair-verify failed: " + tok
         else:
             if op == "S:a:c0:wrongcode" and tok != "S=st2/st4/err2[]":
                 return "a wrong setup code is not answered with authentication error 2: " + tok
